@@ -10,8 +10,19 @@
  *   RECON i pts size crc flags
  *   DEC i crc w h bd                     decoder output pictures in output order
  *   CMP pts MATCH|MISMATCH plane off     decoder output vs encoder recon (by display position)
+ *   SSE ndec pkt pts f luma cb cr        (sse=1) sum of squared differences between the SUBMITTED picture of that pts (regenerated
+ *                                        with sample_at) and the picture the real decoder output for packet pkt; uint64 in full
+ *   SSEREC ndec pkt pts f luma cb cr     (sse=1 recon=1) the same against the encoder's own reconstruction matched to that output by CMP
+ *   SRCHEX|DECHEX ndec plane w h <hex>   (dumpsse=k>0: for the outputs with (ndec + seed) % k == 0) both visible planes, row-major,
+ *                                        2 hex digits per sample (bd=8) or 4 (bd>8), so the Lean model can recompute the SSE
  *   ERR <what>                           anything abnormal
  *   END packets=N recons=M decoded=K
+ * C21 options: padseed=<n> seeds the random stride-padding bytes (padfill=-1) independently of the content seed;
+ *   tight=1 allocates each caller plane with exactly (rows-1)*stride + width samples (no stride padding after the last row).
+ *   guard=1 puts every caller plane directly in front of an inaccessible page and, right after svt_av1_enc_send_picture
+ *   returns, makes the whole plane inaccessible (instead of freeing it): any later access by the library, and any read past
+ *   the end of a plane, faults; the handler prints `GUARDFAULT kind=past-end|after-send plane=<0..2> frame=<f> off=<bytes>`
+ *   and exits with code 9.
  * Exit code: 0 normal; 3 watchdog timeout (prints TIMEOUT first).
  */
 #include <stdio.h>
@@ -21,6 +32,7 @@
 #include <unistd.h>
 #include <signal.h>
 #include <inttypes.h>
+#include <sys/mman.h>
 #include "EbSvtAv1Enc.h"
 #include "EbSvtAv1Dec.h"
 #include "cfg_fields.h"
@@ -40,7 +52,8 @@ static uint64_t fnv(const uint8_t *p, size_t n, uint64_t h) {
 
 typedef struct {
     int w, h, n, bd, content, stride_extra, padfill, scribble, drain, drain_k, recon, decode, hex, dec_threads,
-        dec16, watchdog, dirty, eos, pts_base, pts_step, delay_us, annexb, noinit_defaults, fg_skip, dumpcfg;
+        dec16, watchdog, dirty, eos, pts_base, pts_step, delay_us, annexb, noinit_defaults, fg_skip, dumpcfg, padseed, tight, guard;
+    int sse, dumpsse;                       /* C26: print SSE / SRCHEX / DECHEX lines for every decoded picture */
     uint64_t seed;
 } Params;
 
@@ -108,18 +121,56 @@ static int sample_at(const Params *P, int f, int p, int x, int y) {
 
 typedef struct { uint8_t *luma, *cb, *cr; size_t ysz, csz; } Pic;
 
+/* ---- guard-page allocation of the caller's planes (guard=1) ---- */
+typedef struct { uint8_t *base; size_t maplen; uint8_t *buf; size_t size; int plane, frame, released; } GuardRegion;
+static GuardRegion guards[4096]; static int nguards;
+static void on_segv(int sig, siginfo_t *si, void *ctx) {
+    (void)sig; (void)ctx;
+    char msg[200]; int n = 0;
+    uint8_t *a = (uint8_t *)si->si_addr;
+    for (int i = 0; i < nguards; i++) {
+        GuardRegion *g = &guards[i];
+        if (a >= g->base && a < g->base + g->maplen) {
+            n = snprintf(msg, sizeof(msg), "GUARDFAULT kind=%s plane=%d frame=%d off=%ld size=%zu\n",
+                         (a >= g->buf + g->size) ? "past-end" : g->released ? "after-send" : "before-start", g->plane, g->frame,
+                         (long)(a - g->buf), g->size);
+            break;
+        }
+    }
+    if (!n) n = snprintf(msg, sizeof(msg), "SEGV addr=%p (not a guarded caller plane)\n", (void *)a);
+    if (write(1, msg, (size_t)n)) {}
+    _exit(9);
+}
+static uint8_t *guard_alloc(size_t size, int plane, int frame) {
+    size_t pg = (size_t)sysconf(_SC_PAGESIZE);
+    size_t body = (size + pg - 1) / pg * pg;
+    uint8_t *base = mmap(NULL, body + pg, PROT_READ | PROT_WRITE, MAP_PRIVATE | MAP_ANONYMOUS, -1, 0);
+    if (base == MAP_FAILED || nguards >= 4096) { printf("ERR guard-alloc\n"); exit(0); }
+    mprotect(base + body, pg, PROT_NONE);
+    GuardRegion *g = &guards[nguards++];
+    g->base = base; g->maplen = body + pg; g->buf = base + (body - size); g->size = size; g->plane = plane; g->frame = frame; g->released = 0;
+    return g->buf;
+}
+static void guard_release(uint8_t *buf) {
+    for (int i = 0; i < nguards; i++)
+        if (guards[i].buf == buf && !guards[i].released) { guards[i].released = 1; mprotect(guards[i].base, guards[i].maplen, PROT_NONE); return; }
+}
+
 static void make_pic(const Params *P, int f, EbSvtIOFormat *io, Pic *pic, Rng *padrng) {
     int bps = P->bd > 8 ? 2 : 1;
     int ys = P->w + P->stride_extra, cs = P->w / 2 + P->stride_extra / 2;
     int ch = P->h / 2, cw = P->w / 2;
     pic->ysz = (size_t)ys * P->h * bps; pic->csz = (size_t)cs * ch * bps;
-    pic->luma = malloc(pic->ysz); pic->cb = malloc(pic->csz); pic->cr = malloc(pic->csz);
+    if (P->tight) { pic->ysz = ((size_t)ys * (P->h - 1) + P->w) * bps; pic->csz = ((size_t)cs * (ch - 1) + cw) * bps; }
+    if (P->guard) { pic->luma = guard_alloc(pic->ysz, 0, f); pic->cb = guard_alloc(pic->csz, 1, f); pic->cr = guard_alloc(pic->csz, 2, f); }
+    else { pic->luma = malloc(pic->ysz); pic->cb = malloc(pic->csz); pic->cr = malloc(pic->csz); }
     uint8_t *pl[3] = {pic->luma, pic->cb, pic->cr};
     for (int p = 0; p < 3; p++) {
         int W = p ? cw : P->w, H = p ? ch : P->h, S = p ? cs : ys;
         for (int y = 0; y < H; y++)
             for (int x = 0; x < S; x++) {
                 int v;
+                if (P->tight && y == H - 1 && x >= W) break;
                 if (x < W) v = sample_at(P, f, p, x, y);
                 else v = P->padfill >= 0 ? (P->padfill | (bps == 2 ? (P->padfill & 3) << 8 : 0)) : (int)(rnd(padrng) & ((1 << P->bd) - 1));
                 if (bps == 1) pl[p][(size_t)y * S + x] = (uint8_t)v;
@@ -131,10 +182,11 @@ static void make_pic(const Params *P, int f, EbSvtIOFormat *io, Pic *pic, Rng *p
     io->y_stride = ys; io->cb_stride = cs; io->cr_stride = cs;
     io->width = P->w; io->height = P->h; io->color_fmt = EB_YUV420; io->bit_depth = P->bd > 8 ? EB_TEN_BIT : EB_EIGHT_BIT;
 }
-static void scribble_free(Pic *pic, Rng *r) {
+static void scribble_free(Pic *pic, Rng *r, int guard) {
     memset(pic->luma, (int)(rnd(r) & 0xff), pic->ysz); memset(pic->cb, (int)(rnd(r) & 0xff), pic->csz);
     memset(pic->cr, (int)(rnd(r) & 0xff), pic->csz);
-    free(pic->luma); free(pic->cb); free(pic->cr);
+    if (guard) { guard_release(pic->luma); guard_release(pic->cb); guard_release(pic->cr); }
+    else { free(pic->luma); free(pic->cb); free(pic->cr); }
 }
 
 /* ---- collected outputs ---- */
@@ -192,6 +244,41 @@ static int poll_recon(const Params *P, EbComponentType *h, EbBufferHeaderType *r
     return got;
 }
 
+/* ---- C26: true SSE between the submitted picture (regenerated) and the decoder's output picture ---- */
+static void sse_report(const Params *P, int ndec, int pkt, const EbSvtIOFormat *io, const char *kw) {
+    int64_t pts = pkts[pkt].pts;
+    if (P->pts_step == 0 || (pts - P->pts_base) % P->pts_step) { printf("ERR sse-pts-not-a-submitted-pts pkt=%d pts=%" PRId64 "\n", pkt, pts); return; }
+    int64_t f64 = (pts - P->pts_base) / P->pts_step;
+    if (f64 < 0 || f64 >= P->n) { printf("ERR sse-pts-out-of-range pkt=%d pts=%" PRId64 "\n", pkt, pts); return; }
+    int f = (int)f64;
+    const uint8_t *pl[3] = {io->luma, io->cb, io->cr};
+    int strides[3] = {(int)io->y_stride, (int)io->cb_stride, (int)io->cr_stride};
+    uint64_t sse[3] = {0, 0, 0};
+    int dump = !strcmp(kw, "SSE") && P->dumpsse > 0 && (((uint64_t)ndec + P->seed) % (uint64_t)P->dumpsse) == 0;
+    for (int p = 0; p < 3; p++) {
+        int W = p ? P->w / 2 : P->w, H = p ? P->h / 2 : P->h;
+        for (int y = 0; y < H; y++)
+            for (int x = 0; x < W; x++) {
+                int64_t s = sample_at(P, f, p, x, y);
+                int64_t d = P->bd > 8 ? ((const uint16_t *)pl[p])[(size_t)y * strides[p] + x] : pl[p][(size_t)y * strides[p] + x];
+                sse[p] += (uint64_t)((s - d) * (s - d));
+            }
+        if (dump) {
+            for (int which = 0; which < 2; which++) {
+                printf("%s %d %d %d %d ", which ? "DECHEX" : "SRCHEX", ndec, p, W, H);
+                for (int y = 0; y < H; y++)
+                    for (int x = 0; x < W; x++) {
+                        int v = which ? (P->bd > 8 ? ((const uint16_t *)pl[p])[(size_t)y * strides[p] + x] : pl[p][(size_t)y * strides[p] + x])
+                                      : sample_at(P, f, p, x, y);
+                        if (P->bd > 8) printf("%04x", v); else printf("%02x", v);
+                    }
+                printf("\n");
+            }
+        }
+    }
+    printf("%s %d %d %" PRId64 " %d %" PRIu64 " %" PRIu64 " %" PRIu64 "\n", kw, ndec, pkt, pts, f, sse[0], sse[1], sse[2]);
+}
+
 static int decode_all(const Params *P) {
     EbSvtAv1DecConfiguration dc; EbComponentType *dh = NULL;
     memset(&dc, 0, sizeof(dc));
@@ -218,6 +305,7 @@ static int decode_all(const Params *P) {
         if (svt_av1_dec_get_picture(dh, &ob, &si, &fi) != EB_DecNoOutputPicture) {
             uint64_t c = fnv(io.luma, ysz, FNV0); c = fnv(io.cb, ysz / 4, c); c = fnv(io.cr, ysz / 4, c);
             printf("DEC %d %016" PRIx64 " %u %u %d pkt=%d\n", ndec, c, si.max_picture_width, si.max_picture_height, P->bd, i);
+            if (P->sse) sse_report(P, ndec, i, &io, "SSE");
             /* compare with the recon of the same display position: the ndec-th output corresponds to packet i's pts position,
                recon carries pts = display order number */
             if (P->recon) {
@@ -227,6 +315,11 @@ static int decode_all(const Params *P) {
                 else {
                     used[found] = 1;
                     const uint8_t *rp = recs[found].data;
+                    if (P->sse && recs[found].size == ysz + ysz / 2) {       /* same SSE against the encoder's own reconstruction of that picture */
+                        EbSvtIOFormat rio = io;
+                        rio.luma = (uint8_t *)rp; rio.cb = (uint8_t *)rp + ysz; rio.cr = (uint8_t *)rp + ysz + ysz / 4;
+                        sse_report(P, ndec, i, &rio, "SSEREC");
+                    }
                     if (recs[found].size != ysz + ysz / 2) printf("CMP %d SIZE recon=%u expect=%zu\n", ndec, recs[found].size, ysz + ysz / 2);
                     else if (!memcmp(rp, io.luma, ysz) && !memcmp(rp + ysz, io.cb, ysz / 4) && !memcmp(rp + ysz + ysz / 4, io.cr, ysz / 4))
                         printf("CMP %d MATCH\n", ndec);
@@ -259,12 +352,14 @@ int main(int argc, char **argv) {
 #define PAR(name) if (!strcmp(k, #name)) P.name = (int)v;
         PAR(w) PAR(h) PAR(n) PAR(bd) PAR(content) PAR(stride_extra) PAR(padfill) PAR(scribble) PAR(drain) PAR(drain_k) PAR(recon)
         PAR(decode) PAR(hex) PAR(dec_threads) PAR(dec16) PAR(watchdog) PAR(dirty) PAR(eos) PAR(pts_base) PAR(pts_step) PAR(delay_us)
-        PAR(fg_skip) PAR(dumpcfg)
+        PAR(fg_skip) PAR(dumpcfg) PAR(padseed) PAR(tight) PAR(guard)
+        PAR(sse) PAR(dumpsse)
 #undef PAR
         if (!strcmp(k, "seed")) P.seed = strtoull(eq + 1, NULL, 10);
         *eq = '=';
     }
     signal(SIGALRM, on_timeout); alarm(P.watchdog);
+    if (P.guard) { struct sigaction sa; memset(&sa, 0, sizeof(sa)); sa.sa_sigaction = on_segv; sa.sa_flags = SA_SIGINFO; sigaction(SIGSEGV, &sa, NULL); sigaction(SIGBUS, &sa, NULL); }
     setvbuf(stdout, NULL, _IOFBF, 1 << 20);
     if (P.dirty >= 0) memset(&cfg, P.dirty, sizeof(cfg));
     else if (P.dirty == -2) { Rng r = {P.seed ^ 0xD1}; for (size_t i = 0; i < sizeof(cfg); i++) ((uint8_t *)&cfg)[i] = (uint8_t)rnd(&r); }
@@ -297,7 +392,7 @@ int main(int argc, char **argv) {
     }
     EbBufferHeaderType rb; memset(&rb, 0, sizeof(rb));
     rb.size = sizeof(rb); rb.n_alloc_len = (uint32_t)((size_t)P.w * P.h * 3 / 2 * (P.bd > 8 ? 2 : 1)) + 64; rb.p_buffer = malloc(rb.n_alloc_len);
-    Rng callrng = {P.seed ^ 0xCA11}, padrng = {P.seed ^ 0x9AD}, scr = {P.seed ^ 0x5C};
+    Rng callrng = {P.seed ^ 0xCA11}, padrng = {(P.padseed ? (uint64_t)P.padseed * 0x9E3779B97F4A7C15ull : P.seed) ^ 0x9AD}, scr = {P.seed ^ 0x5C};
     for (int f = 0; f < P.n; f++) {
         EbBufferHeaderType in; EbSvtIOFormat io; Pic pic;
         memset(&in, 0, sizeof(in));
@@ -307,7 +402,7 @@ int main(int argc, char **argv) {
         in.p_app_private = (void *)(intptr_t)(1000 + f);
         e = svt_av1_enc_send_picture(h, &in);
         if (e != EB_ErrorNone) printf("ERR send_picture %x\n", e);
-        if (P.scribble) scribble_free(&pic, &scr); else { free(pic.luma); free(pic.cb); free(pic.cr); }
+        if (P.scribble || P.guard) scribble_free(&pic, &scr, P.guard); else { free(pic.luma); free(pic.cb); free(pic.cr); }
         if (P.delay_us) usleep((unsigned)(rnd(&callrng) % (unsigned)P.delay_us));
         int do_drain = (P.drain == 0) || (P.drain == 2 && ((f + 1) % P.drain_k) == 0) || (P.drain == 3 && (rnd(&callrng) & 1));
         if (do_drain) { poll_packets(&P, h, 0); poll_recon(&P, h, &rb); }
